@@ -40,6 +40,8 @@ RULES = {
     "wsgi_latency": "wall-clock: close() of a WSGI event stream must come back with the producer's next step (+ the producer's own cleanup "
     "time of 0 / 50 / 200 ms + 0.5 s tolerance) at ping intervals 30 s / 3 s / 0.5 s, with the producer mid-step or ahead of the client; a "
     "late measurement is repeated three times and only counts if all four are late",
+    "asgi_blanks": "exhaustive grid: byte and event streams whose producer continues with empty items (b'' chunks, events without fields) from step k on, "
+    "disconnect / cancellation at every quarter second: empty items are producer steps like any other; non-trivial = a disconnect inside the empty tail",
     "asgi_sources": "exhaustive grid: the producer is an AsyncIterable object without aclose() (not a generator), or the event stream "
     "contains an event without any field at position 0/2/3; x 4 response kinds x 4 delay patterns x send delay x disconnect instants x "
     "send swallows/raises",
@@ -89,6 +91,10 @@ def oracle_asgi(case) -> Result:
     source = case.get("source", "gen")  # "gen": async generator; "iter": async iterator object without aclose()
     cleanup = float(case.get("cleanup") or 0.0)  # virtual seconds the producer's cleanup code (its finally) awaits
     blank_at = case.get("blank_at")  # (event streams) item k is an event without any field
+    blank_from = case.get("blank_from")  # every item from step k on is empty: b"" for byte streams, {} for event streams
+
+    def is_blank(i):
+        return (i == blank_at and "sse" in kind) or (blank_from is not None and i >= blank_from)
     cancel_at = case.get("cancel_at")  # the server cancels the application task at this instant (no disconnect)
     info["completed"] = False
     info["cleanup_done"] = 0
@@ -109,10 +115,10 @@ def oracle_asgi(case) -> Result:
             info["completed"] = True
             return None
         if "sse" in kind:
-            item = {} if i == blank_at else {"data": f"item-{i}", "id": str(i)}
+            item = {} if is_blank(i) else {"data": f"item-{i}", "id": str(i)}
         else:
-            item = b"item-%d;" % i
-        if not ("sse" in kind and i == blank_at):
+            item = b"" if is_blank(i) else b"item-%d;" % i
+        if not is_blank(i):
             info["yielded"].append(i)
         return item
 
@@ -288,7 +294,7 @@ def oracle_asgi(case) -> Result:
         for c in run.chunks:
             if c.startswith(b": ping") or c == b"":
                 continue
-            if blank_at is not None and c.strip(b"\r\n") == b"":
+            if (blank_at is not None or blank_from is not None) and c.strip(b"\r\n") == b"":
                 continue  # the event without fields: a bare event terminator, dispatches nothing
             text = c.decode()
             ids = [ln[4:] for ln in text.split("\n") if ln.startswith("id: ")]
@@ -891,6 +897,7 @@ SUBS = {
     "asgi": oracle_asgi,
     "asgi_grid": oracle_asgi,
     "asgi_sources": oracle_asgi,
+    "asgi_blanks": oracle_asgi,
     "asgi_cleanup": oracle_asgi,
     "asgi_cancel": oracle_asgi,
     "asgi_slow_client": oracle_asgi,
@@ -940,6 +947,8 @@ def asgi_case(draw):
         case["cleanup"] = draw(st.sampled_from([0.25, 0.5, 1.0, 2.5]))
     if extra in (4, 5) and "sse" in kind and n:
         case["blank_at"] = draw(st.integers(0, n - 1))
+    if n and draw(st.integers(0, 5)) == 0:
+        case["blank_from"] = draw(st.integers(0, n - 1))
     if extra in (1, 3, 6, 7) and D is not None:
         case["cancel_at"], case["disconnect_at"] = D, None
         case["send_raises"] = False
@@ -983,6 +992,23 @@ def asgi_sources_cases():
                     for delays in ([0, 0, 0, 0, 0], [0.5, 0.5, 0.5, 0.5, 0.5], [0, 0, 1.5, 0, 0]):
                         for D in (None, 1.25):
                             yield _base(kind, delays, None, send_delay=0.25, disconnect_at=D, source=source, blank_at=blank_at)
+
+
+def asgi_blank_cases():
+    """Producers that go on with EMPTY items (b"" chunks of an idle compressor / heartbeat, events without fields): each
+    empty item is a producer step like any other - after the disconnect at most one more may begin."""
+    for kind in ("stream", "sse", "stream-view", "sse-view"):
+        for n, blank_from in ((6, 1), (6, 2), (8, 3), (12, 1)):
+            for delay in (0.5, 0.25, 0):
+                delays = [delay] * (n + 1)
+                for send_delay in (0, 0.25):
+                    for D in (None, 0.0, 0.25, 0.5, 0.75, 1.0, 1.25, 1.75, 2.5):
+                        if delay == 0 and D not in (None, 0.0):
+                            continue
+                        yield _base(kind, delays, None, items=n, send_delay=send_delay, disconnect_at=D, blank_from=blank_from)
+                for cancel_at in (0.75, 1.25):
+                    if delay:
+                        yield _base(kind, delays, None, items=n, cancel_at=cancel_at, blank_from=blank_from)
 
 
 def asgi_cleanup_cases(quick):
@@ -1105,7 +1131,7 @@ def run(rec, only=None):
     grid = list(asgi_grid())
     core.drive_cases(rec, "asgi_grid", grid, oracle_asgi)
     rec.exhaustive["asgi_grid"] = True
-    for sub, cases in (("asgi_sources", asgi_sources_cases()), ("asgi_cleanup", asgi_cleanup_cases(quick)), ("asgi_cancel", asgi_cancel_cases(quick)),
+    for sub, cases in (("asgi_blanks", asgi_blank_cases()), ("asgi_sources", asgi_sources_cases()), ("asgi_cleanup", asgi_cleanup_cases(quick)), ("asgi_cancel", asgi_cancel_cases(quick)),
                        ("asgi_slow_client", asgi_slow_client_cases()), ("asgi_endless", asgi_endless_cases())):
         core.drive_cases(rec, sub, cases, oracle_asgi)
         rec.exhaustive[sub] = True
